@@ -329,8 +329,24 @@ func ruleR01_3(c *Check) {
 		ix, ok := unparen(c.Args[1]).(*ast.IndexExpr)
 		okv := false
 		if ok {
-			if b, ok := unparen(ix.Index).(*ast.BinaryExpr); ok && b.Op == token.SUB {
+			if b, ok := unparen(w.Origin(gm, ix.Index)).(*ast.BinaryExpr); ok && b.Op == token.SUB {
 				okv = true
+			}
+			// or the loop itself counts down: for i := len(imm)-1; i >= 0; i--
+			if id, ok := unparen(ix.Index).(*ast.Ident); ok {
+				for p := w.parentOf(c); p != nil; p = w.parentOf(p) {
+					if fs, ok := p.(*ast.ForStmt); ok {
+						if inc, ok := fs.Post.(*ast.IncDecStmt); ok && inc.Tok == token.DEC {
+							if pid, ok := unparen(inc.X).(*ast.Ident); ok && w.Use(pid) == w.Use(id) {
+								okv = true
+							}
+						}
+						break
+					}
+					if _, ok := p.(*ast.RangeStmt); ok {
+						break
+					}
+				}
 			}
 		}
 		r.Check(okv, gm, "immutable memtables taken newest first", c, "index expression is "+short(w, c.Args[1]))
@@ -344,6 +360,20 @@ func ruleR01_3(c *Check) {
 		for p := w.parentOf(s); p != nil; p = w.parentOf(p) {
 			if rs, ok := p.(*ast.RangeStmt); ok && w.fieldOf(rs.X) == levels {
 				okv = true
+			}
+			// or an index loop counting up whose handler is levels[i]
+			if fs, ok := p.(*ast.ForStmt); ok && !okv {
+				if inc, ok := fs.Post.(*ast.IncDecStmt); ok && inc.Tok == token.INC {
+					if rc := recvOf(s.(*ast.CallExpr)); rc != nil {
+						if ix, ok := unparen(w.Origin(lg, rc)).(*ast.IndexExpr); ok && w.fieldOf(ix.X) == levels {
+							iid, ok1 := unparen(ix.Index).(*ast.Ident)
+							pid, ok2 := unparen(inc.X).(*ast.Ident)
+							if ok1 && ok2 && w.Use(iid) == w.Use(pid) {
+								okv = true
+							}
+						}
+					}
+				}
 			}
 		}
 		r.Check(okv, lg, "levels visited in ascending order", s, "levelHandler.get is not called from a forward range over levelsController.levels")
